@@ -56,3 +56,9 @@ Definition REL_HAS_PARENT := s2l ": ".
 Definition REL_HAS_CLOSE_PARENT := s2l ":>".
 Definition REL_HAS_SIBLING := s2l ":~".
 Definition REL_HAS_CLOSE_SIBLING := s2l ":+".
+Definition s2l_de := s2l "de".
+Definition s2l_DE := s2l "de".
+Definition s2l_latn := s2l "latn".
+Definition s2l_x := s2l "x".
+Definition s2l_range1 := s2l "de-*-DE".
+Definition s2l_tag1 := s2l "de-Latn-DE-1996".
